@@ -4,21 +4,375 @@ namespace MQ
 
 /-- generic wrapper for steps that change no ring word -/
 theorem rinv_run_same {σ : St} (t inp : Nat) (I : RInv σ) (hnc : (σ.th t).pc.ringChanging = false)
+    (hna : (σ.th t).pc.addPC = false)
     (hl : Loc σ.ring ((stepRun σ t inp).2.th t))
     (hc : ((stepRun σ t inp).2.th t).pc.claim = (σ.th t).pc.claim) : RInv (stepRun σ t inp).2 := by
   unfold RInv
   rw [th_eq_upd, stepRun_ring_same _ _ _ hnc]
-  exact rinvR_same I hl hc
+  exact rinvR_same I hl hc (by intro e; rw [stepRun_not_add _ _ _ hna] at e; cases e)
+
+/-- same, with the ring equality given explicitly (failed CAS and the like) -/
+theorem rinv_run_same' {σ : St} (t inp : Nat) (I : RInv σ) (hring : (stepRun σ t inp).2.ring = σ.ring)
+    (hna : (σ.th t).pc.addPC = false)
+    (hl : Loc σ.ring ((stepRun σ t inp).2.th t))
+    (hc : ((stepRun σ t inp).2.th t).pc.claim = (σ.th t).pc.claim) : RInv (stepRun σ t inp).2 := by
+  unfold RInv
+  rw [th_eq_upd, hring]
+  exact rinvR_same I hl hc (by intro e; rw [stepRun_not_add _ _ _ hna] at e; cases e)
 
 theorem rinv_run_sh {σ : St} (t inp : Nat) (m : Bool) (I : RInv σ) (M : ModeOK σ)
     (hpc : (σ.th t).pc = .sh m) : RInv (stepRun σ t inp).2 := by
   have g := I.g
-  apply rinv_run_same t inp I (by rw [hpc]; rfl)
+  apply rinv_run_same t inp I (by rw [hpc]; rfl) (by rw [hpc]; rfl)
   · simp only [stepRun, hpc]
     simp [Loc, St.goto, St.flush, St.setTh, upd, St.ring]
     have := g.tcN; simp [St.ring] at this
     omega
   · simp only [stepRun, hpc]
     simp [St.goto, St.flush, St.setTh, upd, PC.claim]
+
+end MQ
+
+namespace MQ
+
+/-- unfolding helper: the thread record after a `goto` -/
+theorem th_self_goto (σ : St) (t : Nat) (pc : PC) : (σ.goto t pc).th t = { σ.th t with pc := pc } := by
+  simp [St.goto, St.setTh, upd]
+
+theorem rinv_run_st {σ : St} (t inp : Nat) (m : Bool) (h : Nat) (I : RInv σ)
+    (hpc : (σ.th t).pc = .st m h) : RInv (stepRun σ t inp).2 := by
+  have g := I.g
+  have L := I.loc t
+  simp only [Loc, hpc] at L
+  obtain ⟨L1, L2, L3⟩ := L
+  have hN := g.tcN
+  apply rinv_run_same t inp I (by rw [hpc]; rfl) (by rw [hpc]; rfl)
+  · simp only [stepRun, hpc]
+    simp only [St.ring] at *
+    repeat' split
+    all_goals simp [Loc, St.goto, St.gotoF, St.flush, St.setTh, upd]
+    all_goals (first | omega | (refine ⟨by omega, by omega, ?_⟩; intro hm; exact ⟨L3 hm, rfl⟩) | (refine ⟨by omega, by omega, ?_⟩; intro hm; exact L3 hm) | skip)
+  · simp only [stepRun, hpc]
+    repeat' split
+    all_goals simp [St.goto, St.gotoF, St.flush, St.setTh, upd, PC.claim]
+
+end MQ
+
+namespace MQ
+
+macro "run_unfold" hpc:ident : tactic =>
+  `(tactic| (simp only [stepRun, $hpc:ident]; (try simp only [St.ring] at *); repeat' split))
+
+macro "run_simp" : tactic =>
+  `(tactic| simp [Loc, St.goto, St.gotoF, St.flush, St.setTh, St.setHd, upd, PC.claim, reg] at *)
+
+theorem rinv_run_g1 {σ : St} (t inp : Nat) (m : Bool) (h tl : Nat) (I : RInv σ)
+    (hpc : (σ.th t).pc = .g1 m h tl) : RInv (stepRun σ t inp).2 := by
+  have L := I.loc t
+  simp only [Loc, hpc] at L
+  obtain ⟨L1, L2, L3, L4⟩ := L
+  apply rinv_run_same t inp I (by rw [hpc]; rfl) (by rw [hpc]; rfl)
+  · run_unfold hpc
+    · rename_i hlen
+      simp [Loc, St.goto, St.flush, St.setTh, upd]
+      refine ⟨L1, L2, L3, ?_, L4⟩
+      intro j hj; rw [List.length_eq_zero_iff.mp hlen] at hj; simp at hj
+    · rename_i hlen
+      simp [Loc, St.goto, St.flush, St.setTh, upd]
+      exact ⟨L1, L2, L3, by omega, L4⟩
+  · run_unfold hpc <;> simp [St.goto, St.flush, St.setTh, upd, PC.claim]
+
+end MQ
+
+namespace MQ
+
+theorem rinv_run_g2 {σ : St} (t inp : Nat) (m : Bool) (h tl p i md : Nat) (I : RInv σ)
+    (hpc : (σ.th t).pc = .g2 m h tl p i md) : RInv (stepRun σ t inp).2 := by
+  have g := I.g
+  have L := I.loc t
+  simp only [Loc, hpc] at L
+  obtain ⟨L1, L2, L3, L4, L5, L6⟩ := L
+  apply rinv_run_same t inp I (by rw [hpc]; rfl) (by rw [hpc]; rfl)
+  · run_unfold hpc
+    · simp [Loc, St.goto, St.flush, St.setTh, upd]
+      exact ⟨L1, L2, L3, L6⟩
+    · rename_i hge hlt
+      simp [Loc, St.goto, St.flush, St.setTh, upd]
+      refine ⟨L1, L2, L3, L4, ?_, L6⟩
+      intro hc
+      obtain ⟨a, b, c⟩ := L5 hc
+      have hreg : reg σ.ring ((σ.groups p).getD i 0) := by
+        simp only [reg, St.ring]; rw [← hc]
+        rw [List.getD_eq_getElem?_getD, List.getElem?_eq_getElem b]; simp
+      have h1 := g.tcle _ hreg
+      simp only [St.ring] at h1
+      simp only [List.getD_eq_getElem?_getD] at *
+      refine ⟨by omega, hlt, ?_⟩
+      intro j hj hjl
+      rcases Nat.lt_or_ge j i with hji | hji
+      · have := c j hji hjl; omega
+      · have : j = i := by omega
+        subst this; omega
+    · rename_i hge hlt
+      simp [Loc, St.goto, St.flush, St.setTh, upd]
+      refine ⟨L1, L2, L3, L4, ?_, L6⟩
+      intro hc
+      obtain ⟨a, b, c⟩ := L5 hc
+      have hreg : reg σ.ring ((σ.groups p).getD i 0) := by
+        simp only [reg, St.ring]; rw [← hc]
+        rw [List.getD_eq_getElem?_getD, List.getElem?_eq_getElem b]; simp
+      have h1 := g.tcle _ hreg
+      simp only [St.ring] at h1
+      simp only [List.getD_eq_getElem?_getD] at *
+      refine ⟨by omega, ?_⟩
+      intro j hjl
+      rcases Nat.lt_or_ge j i with hji | hji
+      · have := c j hji hjl; omega
+      · have : j = i := by omega
+        subst this; omega
+  · run_unfold hpc <;> simp [St.goto, St.flush, St.setTh, upd, PC.claim]
+
+end MQ
+
+namespace MQ
+
+theorem mem_getD {l : List Nat} {s : Nat} (h : s ∈ l) : ∃ j, j < l.length ∧ l[j]?.getD 0 = s := by
+  obtain ⟨j, hj, e⟩ := List.getElem_of_mem h
+  exact ⟨j, hj, by simp [List.getElem?_eq_getElem hj, e]⟩
+
+theorem rinv_run_g3 {σ : St} (t inp : Nat) (m : Bool) (h tl p : Nat) (r : Option Nat) (I : RInv σ)
+    (hpc : (σ.th t).pc = .g3 m h tl p r) : RInv (stepRun σ t inp).2 := by
+  have g := I.g
+  have L := I.loc t
+  apply rinv_run_same t inp I (by rw [hpc]; rfl) (by rw [hpc]; rfl)
+  · cases r
+    · -- none
+      simp only [Loc, hpc] at L
+      obtain ⟨L1, L2, L3, L4⟩ := L
+      cases m
+      · run_unfold hpc
+        · simp [Loc, St.goto, St.flush, St.setTh, upd]
+        · simp [Loc, St.goto, St.flush, St.setTh, upd]; exact ⟨L1, L2, L3, L4 trivial⟩
+      · run_unfold hpc
+        · simp [Loc, St.goto, St.flush, St.setTh, upd]; omega
+        · simp [Loc, St.goto, St.flush, St.setTh, upd]; exact ⟨L1, L2, L3⟩
+    · rename_i md
+      simp only [Loc, hpc] at L
+      obtain ⟨L1, L2, L3, L4, L5, L6⟩ := L
+      have key : p = σ.cur → md ≤ σ.N ∧ ∀ s', reg σ.ring s' → h - md ≤ σ.pos s' := by
+        intro hc
+        obtain ⟨a, b⟩ := L5 hc
+        refine ⟨a, ?_⟩
+        intro s' hs'
+        simp only [reg, St.ring] at hs'
+        rw [← hc] at hs'
+        obtain ⟨j, hj, e⟩ := mem_getD hs'
+        have := b j hj
+        simpa [St.ring, List.getD_eq_getElem?_getD, e] using this
+      cases m
+      · run_unfold hpc
+        · rename_i hc
+          obtain ⟨k1, k2⟩ := key hc.symm
+          obtain ⟨m1, m2⟩ := L6 trivial
+          simp [Loc, St.goto, St.flush, St.setTh, upd, reg]
+          simp only [St.ring, reg] at k2
+          exact ⟨m1, by omega, by omega, fun s' hs' => by have := k2 s' hs'; omega⟩
+        · simp [Loc, St.goto, St.flush, St.setTh, upd]; exact ⟨L1, L2, L3, L6 trivial⟩
+      · run_unfold hpc
+        · exact loc_of_neutral (sendDone_neutral _ t _)
+        · simp [Loc, St.goto, St.flush, St.setTh, upd]; omega
+        · simp [Loc, St.goto, St.gotoF, St.flush, St.setTh, upd]; omega
+        · rename_i hc _
+          obtain ⟨k1, k2⟩ := key hc.symm
+          simp [Loc, St.goto, St.flush, St.setTh, upd, reg]
+          simp only [St.ring, reg] at k2
+          exact ⟨L1, by omega, L3, L2, fun s' hs' => by have := k2 s' hs'; omega⟩
+        · simp [Loc, St.goto, St.flush, St.setTh, upd]; exact ⟨L1, L2, L3⟩
+  · have hcn : ∀ (σ' : St) (r : Res), ((sendDone σ' t r).th t).pc.claim = none :=
+      fun σ' r => claim_of_neutral (sendDone_neutral σ' t r)
+    cases r <;> cases m <;> run_unfold hpc <;>
+      first | exact hcn _ _ | (simp [St.goto, St.gotoF, St.flush, St.setTh, upd, PC.claim]; done)
+
+end MQ
+
+namespace MQ
+
+theorem others_not_single {σ : St} (M : ModeOK σ) (t : Nat) (h : (σ.th t).pc.sendActive = true) :
+    ∀ u, u ≠ t → (σ.th u).pc.singleSend = false := by
+  intro u hu
+  cases e : (σ.th u).pc.singleSend
+  · rfl
+  · exact (M.send t u (Ne.symm hu) h e).elim
+
+theorem rinv_run_tcs {σ : St} (t inp : Nat) (h cur : Nat) (I : RInv σ) (M : ModeOK σ)
+    (hpc : (σ.th t).pc = .tcs h cur) : RInv (stepRun σ t inp).2 := by
+  have g := I.g
+  have L := I.loc t
+  simp only [Loc, hpc] at L
+  obtain ⟨L1, L2, L3, L4, L5⟩ := L
+  have hring : (stepRun σ t inp).2.ring = { σ.ring with tc := cur } := by
+    simp only [stepRun, hpc]; repeat' split
+    all_goals (simp only [sendDone_ring, ring_goto, ring_gotoF]; rfl)
+  unfold RInv
+  rw [th_eq_upd, hring]
+  apply rinvR_tc I (others_not_single M t (by rw [hpc]; rfl)) L2 L5 (by omega)
+  · run_unfold hpc
+    · exact loc_of_neutral (sendDone_neutral _ t _)
+    · simp [Loc, St.goto, St.flush, St.setTh, upd]; omega
+    · simp [Loc, St.goto, St.gotoF, St.flush, St.setTh, upd]; omega
+  · run_unfold hpc
+    · exact claim_of_neutral (sendDone_neutral _ t _)
+    · simp [St.goto, St.flush, St.setTh, upd, PC.claim]
+    · simp [St.goto, St.gotoF, St.flush, St.setTh, upd, PC.claim]
+  · exact stepRun_not_add _ _ _ (by rw [hpc]; rfl)
+
+theorem rinv_run_tcc {σ : St} (t inp : Nat) (h tl cur : Nat) (I : RInv σ) (M : ModeOK σ)
+    (hpc : (σ.th t).pc = .tcc h tl cur) : RInv (stepRun σ t inp).2 := by
+  have g := I.g
+  have L := I.loc t
+  simp only [Loc, hpc] at L
+  obtain ⟨L1, L2, L3, L4, L5, L6⟩ := L
+  have hN := g.tcN
+  by_cases hok : σ.tc = tl
+  · -- CAS succeeds
+    have hring : (stepRun σ t inp).2.ring = { σ.ring with tc := cur } := by
+      simp only [stepRun, hpc]; simp only [hok]; repeat' split
+      all_goals (simp only [sendDone_ring, ring_goto, ring_gotoF]; first | rfl | (simp_all))
+    unfold RInv
+    rw [th_eq_upd, hring]
+    apply rinvR_tc I (others_not_single M t (by rw [hpc]; rfl)) (by simp only [St.ring] at *; omega) L6
+      (by simp only [St.ring] at *; omega)
+    · run_unfold hpc
+      all_goals first
+        | exact loc_of_neutral (sendDone_neutral _ t _)
+        | (simp [Loc, St.goto, St.gotoF, St.flush, St.setTh, upd]; omega)
+    · run_unfold hpc
+      all_goals first
+        | exact claim_of_neutral (sendDone_neutral _ t _)
+        | (simp [St.goto, St.gotoF, St.flush, St.setTh, upd, PC.claim])
+    · exact stepRun_not_add _ _ _ (by rw [hpc]; rfl)
+  · -- CAS fails: nothing changes
+    have hring : (stepRun σ t inp).2.ring = σ.ring := by
+      simp only [stepRun, hpc]; simp only [hok]; repeat' split
+      all_goals (simp only [sendDone_ring, ring_goto, ring_gotoF]; first | rfl | (simp_all))
+    apply rinv_run_same' t inp I hring (by rw [hpc]; rfl)
+    · run_unfold hpc
+      all_goals first
+        | exact loc_of_neutral (sendDone_neutral _ t _)
+        | (simp [Loc, St.goto, St.gotoF, St.flush, St.setTh, upd]; omega)
+    · run_unfold hpc
+      all_goals first
+        | exact claim_of_neutral (sendDone_neutral _ t _)
+        | (simp [St.goto, St.gotoF, St.flush, St.setTh, upd, PC.claim])
+
+end MQ
+
+namespace MQ
+
+theorem rinv_run_tcl {σ : St} (t inp : Nat) (h : Nat) (I : RInv σ)
+    (hpc : (σ.th t).pc = .tcl h) : RInv (stepRun σ t inp).2 := by
+  have L := I.loc t
+  simp only [Loc, hpc] at L
+  apply rinv_run_same t inp I (by rw [hpc]; rfl) (by rw [hpc]; rfl)
+  · run_unfold hpc
+    all_goals first
+      | exact loc_of_neutral (sendDone_neutral _ t _)
+      | (simp [Loc, St.goto, St.gotoF, St.flush, St.setTh, upd]; omega)
+  · run_unfold hpc
+    all_goals first
+      | exact claim_of_neutral (sendDone_neutral _ t _)
+      | (simp [St.goto, St.gotoF, St.flush, St.setTh, upd, PC.claim])
+
+theorem rinv_run_rf {σ : St} (t inp : Nat) (m : Bool) (h : Nat) (I : RInv σ)
+    (hpc : (σ.th t).pc = .rf m h) : RInv (stepRun σ t inp).2 := by
+  have L := I.loc t
+  simp only [Loc, hpc] at L
+  apply rinv_run_same t inp I (by rw [hpc]; rfl) (by rw [hpc]; rfl)
+  · run_unfold hpc
+    all_goals first
+      | exact loc_of_neutral (sendDone_neutral _ t _)
+      | (simp [Loc, St.goto, St.gotoF, St.flush, St.setTh, upd]; exact L)
+  · run_unfold hpc
+    all_goals first
+      | exact claim_of_neutral (sendDone_neutral _ t _)
+      | (simp [St.goto, St.gotoF, St.flush, St.setTh, upd, PC.claim])
+
+theorem rinv_run_hd {σ : St} (t inp : Nat) (m : Bool) (h : Nat) (I : RInv σ) (M : ModeOK σ)
+    (hpc : (σ.th t).pc = .hd m h) : RInv (stepRun σ t inp).2 := by
+  have g := I.g
+  have L := I.loc t
+  simp only [Loc, hpc] at L
+  obtain ⟨L1, L2, L3⟩ := L
+  have hclaim : (σ.th t).pc.claim = none := by rw [hpc]; rfl
+  by_cases hok : σ.head = h
+  · have hring : (stepRun σ t inp).2.ring = { σ.ring with head := h + 1, log := σ.ring.log ++ [(σ.th t).v] } := by
+      cases m <;> simp only [stepRun, hpc] <;> (try simp only [hok]) <;> (repeat' split) <;>
+        first | rfl | simp_all
+    unfold RInv
+    rw [th_eq_upd, hring]
+    apply rinvR_head I (others_not_single M t (by rw [hpc]; rfl)) hok L2 hclaim
+    · cases m <;> simp only [stepRun, hpc] <;> (try simp only [hok]) <;> (repeat' split) <;>
+        first | (simp [St.goto, St.flush, St.setTh, upd]; done) | simp_all
+    · cases m <;> simp only [stepRun, hpc] <;> (try simp only [hok]) <;> (repeat' split) <;>
+        first | (simp [St.goto, St.flush, St.setTh, upd]; done) | simp_all
+  · -- failed CAS (multi only; a single writer cannot fail)
+    cases m
+    · exact absurd (L3 rfl) hok
+    · have hring : (stepRun σ t inp).2.ring = σ.ring := by
+        simp only [stepRun, hpc]; repeat' split
+        all_goals first | rfl | simp_all
+      apply rinv_run_same' t inp I hring (by rw [hpc]; rfl)
+      · have := g.tcN
+        run_unfold hpc
+        all_goals first
+          | (simp_all; done)
+          | (simp [Loc, St.goto, St.gotoF, St.flush, St.setTh, upd]; omega)
+      · run_unfold hpc
+        all_goals first
+          | (simp_all; done)
+          | (simp [St.goto, St.gotoF, St.flush, St.setTh, upd, PC.claim])
+
+end MQ
+
+namespace MQ
+
+theorem rinv_run_tg {σ : St} (t inp : Nat) (h : Nat) (I : RInv σ)
+    (hpc : (σ.th t).pc = .tg h) : RInv (stepRun σ t inp).2 := by
+  have L := I.loc t
+  simp only [Loc, hpc] at L
+  apply rinv_run_same t inp I (by rw [hpc]; rfl) (by rw [hpc]; rfl)
+  · run_unfold hpc
+    simp [Loc, St.goto, St.flush, St.setTh, upd]; exact L
+  · run_unfold hpc
+    simp [St.goto, St.flush, St.setTh, upd, PC.claim, hpc]
+
+theorem rinv_run_wr {σ : St} (t inp : Nat) (h : Nat) (o : Bool) (I : RInv σ)
+    (hpc : (σ.th t).pc = .wr h o) : RInv (stepRun σ t inp).2 := by
+  have hring : (stepRun σ t inp).2.ring =
+      { σ.ring with cont := upd σ.ring.cont (h % σ.ring.N) (some (σ.th t).v) } := by
+    simp only [stepRun, hpc]; rfl
+  unfold RInv
+  rw [th_eq_upd, hring]
+  apply rinvR_cont I hpc rfl
+  · simp only [stepRun, hpc]; simp [St.goto, St.flush, St.setTh, upd]
+  · simp only [stepRun, hpc]; simp [St.goto, St.flush, St.setTh, upd]
+  · simp only [stepRun, hpc]; simp [St.goto, St.flush, St.setTh, upd]
+
+theorem rinv_run_ts {σ : St} (t inp : Nat) (h : Nat) (o : Bool) (I : RInv σ) (M : ModeOK σ)
+    (hpc : (σ.th t).pc = .ts h o) : RInv (stepRun σ t inp).2 := by
+  have hring : (stepRun σ t inp).2.ring =
+      { σ.ring with tag := upd σ.ring.tag (h % σ.ring.N) (some h) } := by
+    simp only [stepRun, hpc]; repeat' split
+    all_goals (simp only [sendDone_ring, ring_goto]; rfl)
+  unfold RInv
+  rw [th_eq_upd, hring]
+  apply rinvR_tag I M.regd hpc
+  · run_unfold hpc
+    · simp [Loc, St.goto, St.flush, St.setTh, upd]
+    · exact loc_of_neutral (sendDone_neutral _ t _)
+  · run_unfold hpc
+    · simp [St.goto, St.flush, St.setTh, upd, PC.claim]
+    · exact claim_of_neutral (sendDone_neutral _ t _)
+  · exact stepRun_not_add _ _ _ (by rw [hpc]; rfl)
 
 end MQ
